@@ -417,6 +417,20 @@ theorem default_origin_check (cfg : Config) (r : Request) (hco : cfg.checkOrigin
     | none => simp
     | some h => simp [foldEq_iff]
 
+/-- centrifuge's own default (`checkSameHost` in `handler_websocket.go`, installed by
+`NewWebsocketHandler`): an absent or empty first `Origin` value passes, otherwise the origin must
+parse and its host equal `Host` ignoring ASCII case. -/
+theorem centrifuge_origin_check (r : Request) :
+    checkSameHost r = true ↔
+      r.get "Origin" = [] ∨ ∃ h, r.originHost = some h ∧ r.host.map lower = h.map lower := by
+  unfold checkSameHost
+  cases hg : r.get "Origin" with
+  | nil => simp
+  | cons o os =>
+    cases ho : r.originHost with
+    | none => simp
+    | some h => simp [foldEq_iff]
+
 /-! ### Finding C31-1: `Upgrade` can panic -/
 
 theorem upgrade_panic_only_key (cfg : Config) (r : Request) (h : upgrade cfg r = .panic) :
